@@ -95,7 +95,7 @@ def unit_variants(obs):
             else:
                 v.id = f"{o.id}/{unit}=1"
                 v.unit_sorts = tuple(o.unit_sorts) + (unit,)
-            v.tier = "quick"
+            v.tier = "quick" if unit in ("D", "Dx", "Dy", "prior=GaussianDiagPDF") else "thorough"
             out.append(v)
     return out
 
